@@ -302,6 +302,57 @@ def rule_R20(text, args, fired):
     fired.append('R20:iter().find -> v_iter_find')
     return text
 
+def rule_R21(text, args, fired):
+    """`let X = loop { .. break V .. };`  ->  `let mut X_opt = None; loop { .. { X_opt = Some(V); break; } .. } let X = X_opt.unwrap();`
+    (Verus has no `break` with a value.)  args = [X].  Every `break V` of that loop (not of nested loops) is rewritten; the
+    unwrap after the loop is an obligation discharged from the loop's `ensures X_opt is Some` (template loop spec)."""
+    var = args[0]
+    toks = _tok_code(text)
+    pat = ['let', var, '=', 'loop', '{']
+    hits = [i for i in range(len(toks) - len(pat)) if [t.text for t in toks[i:i+len(pat)]] == pat]
+    if len(hits) != 1:
+        raise ExtractError('R21: `let %s = loop {` matched %d times' % (var, len(hits)))
+    i = hits[0]
+    bo = i + 4
+    bc = match_close(toks, bo)
+    if toks[bc + 1].text != ';':
+        raise ExtractError('R21: the loop is not the whole initialiser of `%s`' % var)
+    edits = []     # (start, end, replacement)
+    k = bo + 1
+    nb = 0
+    while k < bc:
+        t = toks[k]
+        if t.kind == 'id' and t.text in ('loop', 'while', 'for') and not (toks[k-1].text in ('.', '::')):
+            # skip a nested loop entirely: its breaks are its own
+            j = k + 1
+            while j < bc and toks[j].text != '{':
+                if toks[j].text in ('(', '['): j = match_close(toks, j)
+                j += 1
+            k = match_close(toks, j) + 1
+            continue
+        if t.kind == 'id' and t.text == 'break':
+            j = k + 1
+            while j < bc and toks[j].text not in (',', ';', '}'):
+                if toks[j].text in OPEN: j = match_close(toks, j)
+                j += 1
+            if j == k + 1:
+                raise ExtractError('R21: a `break` without a value in the loop that initialises `%s`' % var)
+            val = text[toks[k + 1].start:toks[j - 1].end]
+            edits.append((t.start, toks[j - 1].end, '{ %s_opt = Some(%s); break; }' % (var, val)))
+            nb += 1
+            k = j
+            continue
+        k += 1
+    if nb == 0:
+        raise ExtractError('R21: no `break <value>` in the loop that initialises `%s`' % var)
+    ty = (': Option<%s>' % args[1]) if len(args) > 1 else ''
+    edits.append((toks[i].start, toks[i + 3].start, 'let mut %s_opt%s = None; ' % (var, ty)))
+    edits.append((toks[bc + 1].start, toks[bc + 1].end, ' let %s = %s_opt.unwrap();' % (var, var)))
+    for a, b, r in sorted(edits, reverse=True):
+        text = text[:a] + r + text[b:]
+    fired.append('R21:%s (%d break values)' % (var, nb))
+    return text
+
 def rule_R8(text, args, fired):
     """`for P in E { B }` over a Vec-valued E  ->  index loop
        `let v_it = E; let mut v_i: usize = 0; while v_i < v_it.len() { let P = v_it[v_i]; v_i += 1; B }`
@@ -548,7 +599,7 @@ def rule_R17lit(text, args, fired):
     return text
 
 AUTO_RULES = [('R13', rule_R13), ('R1', rule_R1), ('R2', rule_R2), ('R3', rule_R3), ('R6', rule_R6), ('R7', rule_R7), ('R12', rule_R12)]
-ARG_RULES = {'R20': rule_R20, 'R4': rule_R4, 'R5': rule_R5, 'R5i': rule_R5i, 'R10': rule_R10, 'R15': rule_R15, 'A6': rule_A6, 'R8': rule_R8, 'R8s': rule_R8s, 'R8e': rule_R8e}
+ARG_RULES = {'R20': rule_R20, 'R21': rule_R21, 'R4': rule_R4, 'R5': rule_R5, 'R5i': rule_R5i, 'R10': rule_R10, 'R15': rule_R15, 'A6': rule_A6, 'R8': rule_R8, 'R8s': rule_R8s, 'R8e': rule_R8e}
 
 # ---------------------------------------------------------------- function assembly
 
